@@ -73,6 +73,7 @@ def _fz(tier, n):
 
 
 def cases(tier):
+    yield Case("large", {"kind": "large"})
     # grey (apodised / soft-edged) masks: every mask over {0, 1/2, 1} on 2x2 and 3x3
     yield Case("grey:n=2:codes=0-80", {"kind": "grey", "n": 2, "lo": 0, "hi": 81})
     for lo in range(0, 3 ** 9, 2500 if tier == "quick" else 1000):
@@ -125,6 +126,8 @@ def cases(tier):
 
 
 def evaluate(p):
+    if p["kind"] == "large":
+        return _large(p)
     if p["kind"] == "grey":
         return _grey(p)
     if p["kind"] == "storage":
@@ -517,4 +520,37 @@ def _grey(p):
         _check_selection(o, agg, wfslib, mi, [s for s in range(1, n + 1)], "grey code %d" % code, unit=2)
     agg.flush(o)
     o.stat("nontrivial", p["hi"] - p["lo"])
+    return o
+
+
+def _large(p):
+    """sizes beyond the exhaustive alphabets: circle() on 130- and 259-pixel grids against the integer disc,
+    sub-aperture selection on a 130-pixel annular pupil with 65, 26, 13 and 10 sub-apertures across"""
+    from aotools.functions import pupil
+    from aotools.wfs import wfslib
+    o = Out()
+    for n in (130, 259):
+        for r4, c4, origin in ((4 * n // 2, (0, 0), "middle"), (4 * n // 3 + 1, (6, -10), "middle"),
+                               (4 * 40 + 2, (4 * 50, 4 * 70 + 2), "corner"), (4 * n, (2, 2), "middle")):
+            got = numpy.asarray(pupil.circle(r4 / 4.0, n, (c4[0] / 4.0, c4[1] / 4.0), origin))
+            want = geom.disc(n, r4, c4, origin) if hasattr(geom, "disc") else None
+            o.stat("lib_calls", 1)
+            if want is None:
+                # integer oracle coded here: pixel centres at i + 1/2, quarter-pixel units
+                k = numpy.arange(n)
+                if origin == "middle":
+                    x = 4 * k + 2 - 2 * n
+                else:
+                    x = 4 * k + 2
+                dx = (x - c4[0])[:, None] if False else None
+                X = (x - c4[0])
+                Y = (x - c4[1])
+                want = ((X[None, :] ** 2 + Y[:, None] ** 2) <= r4 * r4)
+            o.check("exact_indicator_large", got.shape == (n, n) and numpy.array_equal(got.astype(bool), want),
+                    sub="n=%d:r=%g:c=%s:%s" % (n, r4 / 4.0, (c4[0] / 4.0, c4[1] / 4.0), origin),
+                    detail=int(numpy.sum(got.astype(bool) != want)) if got.shape == (n, n) else got.shape)
+    mi = (numpy.asarray(pupil.circle(60, 130)) - numpy.asarray(pupil.circle(17.5, 130, (3, -2)))).astype(numpy.int64)
+    agg = _Agg()
+    _check_selection(o, agg, wfslib, mi, [65, 26, 13, 10, 7], "annulus 130")
+    agg.flush(o)
     return o
